@@ -32,6 +32,8 @@ def load_corpus():
 
 
 def run_one(ctx, prop, scn, rng=None, ops=None, max_ops=40):
+    import common
+    common.next_logging()
     root = E.fresh_root(ctx)
     done, trace = E.run_scenario(scn, root, rng=rng, ops=ops, max_ops=max_ops)
     return E.make_case(scn, done, trace, prop)
@@ -139,6 +141,34 @@ def wide_cases(ctx, prop, count):
     return out
 
 
+# histories that a particular finding needed, replayed on every run: (scenario, reports per poll, the verdict
+# the study must have reached by the end)
+DIRECTED = [
+    # a node that fails eight times in a row under one step with dependents: the step is resubmitted each time
+    # and the study still ends
+    ({"n": 3, "edges": [[0, 1], [1, 2], [2, 3]], "sched": [1, 1, 1], "restart": [0, 0, 0], "rlimit": 1, "throttle": 0,
+      "attempts": 1, "dry": 0, "subs": []},
+     [[]] + [[[1, "HWFAILURE"]]] * 8 + [[[1, "RUNNING"]], [[1, "FINISHED"]], [[2, "FINISHED"]], [[3, "FINISHED"]], []],
+     "FINISHED"),
+]
+
+
+def directed_cases(ctx, prop):
+    out = []
+    for scn, polls, verdict in DIRECTED:
+        ops = [{"op": "poll", "code": "OK", "reports": r} for r in polls]
+        c = run_one(ctx, prop, scn, ops=ops)
+        rets = [o.ret for o in c.trace]
+        if verdict not in rets:
+            c.monitor.append(("terminates", "directed history (%d polls, every job reported finished in the end): the "
+                              "study never returned %s; verdicts %s, final states %s"
+                              % (len(polls), verdict, rets[-3:], c.trace[-1].state if c.trace else None)))
+        c.data["kind"] = "directed"
+        out.append(c)
+        ctx.count("directed-histories")
+    return out
+
+
 def run(ctx, prop, escalated=False, finish=True):
     quick = ctx.tier == "quick" and not escalated
     n_random = 2500 if quick else 40000
@@ -146,6 +176,8 @@ def run(ctx, prop, escalated=False, finish=True):
     for item in load_corpus():
         cases.append(run_one(ctx, prop, item["scenario"], ops=item["ops"]))
     cases.extend(wide_cases(ctx, prop, 2 if quick else 12))
+    if prop == "C05":
+        cases.extend(directed_cases(ctx, prop))
     for _ in range(n_random):
         scn = E.gen_scenario(ctx.rng, maxn=8 if quick else 10)
         cases.append(run_one(ctx, prop, scn, rng=ctx.rng))
